@@ -1053,12 +1053,22 @@ def file_list_order(chk, F, rule):
                         f2, a2 = chain(r[1], seen, depth + 1)
                         flds |= f2
                         ads |= a2
-                else:
+                elif r[0] == "agg":
+                    # e.g. `0..self.file_data.len()`: look at the operands of the aggregate
+                    st = b.blocks[r[1]][1][r[2]]
+                    for op in st[2][4]:
+                        lo = dataflow.operand_local(op)
+                        if lo is not None:
+                            f2, a2 = chain(lo, seen, depth + 1)
+                            flds |= f2
+                            ads |= a2
+                elif r[0] != "const":
                     flds.add("?" + r[0])
             return flds, ads
         flds, ads = chain(0, set())
         sorts = [c["l"] for bb, c in b.calls() if name(c).split("::")[-1].startswith(("sort", "sort_unstable"))]
-        ok = bool(sorts) or (flds == {"file_data"} and "enumerate" in ads)
+        # file_data is the Vec indexed by file id: any forward iteration over it (iter/enumerate/index range) is in id order
+        ok = bool(sorts) or (flds == {"file_data"} and "rev" not in ads)
         chk.check(ok, rule, "vfs-order:" + fn,
                   "Vfs::%s no longer lists the files by enumerating the id-indexed `file_data` (sources: %s) and does not sort its result: the "
                   "order depends on the history of adds/removes, reindex analyses the files in that order and order-sensitive facts (which "
